@@ -325,6 +325,15 @@ enum CellArrayKind {
     ArrayFormula(i32, i32),
 }
 
+/// The number in a `<v>` element. What is not a number reads as 0, and so does what
+/// `f64` parses into NaN or an infinity ("NaN", "inf", "1e999"): no cell holds those.
+fn parse_cell_number(cell_value: Option<&str>) -> f64 {
+    match cell_value.unwrap_or("0").parse::<f64>() {
+        Ok(v) if v.is_finite() => v,
+        _ => 0.0,
+    }
+}
+
 // FIXME
 #[allow(clippy::too_many_arguments)]
 fn get_cell_from_excel(
@@ -370,14 +379,14 @@ fn get_cell_from_excel(
                 if let Some(anchor) = anchor_cell {
                     Cell::SpillCell {
                         v: SpillValue::Number(
-                            cell_value.unwrap_or("0").parse::<f64>().unwrap_or(0.0),
+                            parse_cell_number(cell_value),
                         ),
                         s: cell_style,
                         a: anchor,
                     }
                 } else {
                     Cell::NumberCell {
-                        v: cell_value.unwrap_or("0").parse::<f64>().unwrap_or(0.0),
+                        v: parse_cell_number(cell_value),
                         s: cell_style,
                     }
                 }
@@ -485,7 +494,7 @@ fn get_cell_from_excel(
         match cell_type {
             "b" => make_cell(FormulaValue::Boolean(cell_value == Some("1"))),
             "n" => make_cell(FormulaValue::Number(
-                cell_value.unwrap_or("0").parse::<f64>().unwrap_or(0.0),
+                parse_cell_number(cell_value),
             )),
             "e" => {
                 // For compatibility reasons Excel does not put the value #SPILL! but adds it as a metadata
